@@ -1,16 +1,17 @@
 import SSVerif.Proofs.S3file
+import SSVerif.Model.S3fileLedger
 /-!
 # C17 — Damaged acoustic-model files are rejected without memory errors
 
 Property theorems only.  The model (`Model/S3file.lean`) is the byte reader of `src/s3file.c`
 and the read plans of `tmat_init_s3file`, `gauden_param_read`/`gauden_init_s3file`,
-`feat_read_lda_s3file` and `read_sendump`, **with the D19 repairs applied**.  A `File` is an
+`feat_read_lda_s3file`, `read_sendump` and `read_mixw`, **with the D19 repairs applied**.  A `File` is an
 arbitrary size with arbitrary bytes, so "for every file" covers every truncation length of every
 file and every value of every header field and count.
 
 What is *not* a theorem here (observed on the implementation by the fault enumeration of
 `tools/props/c17.py` under ASan/UBSan/LSan): that the C code is the model (correspondence runs),
-the binary model definition (`bin_mdef.c`), `read_mixw`/`ms_senone.c`, float-valued checks, and
+the binary model definition (`bin_mdef.c`), `ms_senone.c`, float-valued checks, and
 the release of the partial objects on the error paths.
 -/
 namespace SSVerif.S3file
@@ -25,6 +26,7 @@ inductive Plan where
   | gauden (vars : File)
   | lda (streamLen : Nat)
   | sendump (gFeat gDensity mdefSen : Nat)
+  | mixw (gFeat gDensity : Nat)
 
 /-- element sizes are positive (the C callers pass the constants 1, 2, 4) -/
 def Plan.Admissible : Plan → Prop
@@ -39,6 +41,7 @@ def Plan.run (f : File) : Plan → Res Unit
   | .gauden vars => do let _ ← gaudenPlan f vars; pure ()
   | .lda sl => do let _ ← ldaPlan f sl; pure ()
   | .sendump a b c => do let _ ← sendumpPlan f a b c; pure ()
+  | .mixw a b => do let _ ← mixwPlan f a b; pure ()
 
 theorem Plan.run_sat (f : File) (p : Plan) (hp : p.Admissible) : (p.run f).Sat fun _ => True := by
   cases p with
@@ -48,6 +51,7 @@ theorem Plan.run_sat (f : File) (p : Plan) (hp : p.Admissible) : (p.run f).Sat f
   | gauden vars => exact Sat.bind (gaudenPlan_sat f vars) fun _ _ => trivial
   | lda sl => exact Sat.bind (ldaPlan_sat f sl) fun _ _ => trivial
   | sendump a b c => exact Sat.bind (sendumpPlan_sat f a b c) fun _ _ => trivial
+  | mixw a b => exact Sat.bind (mixwPlan_sat f a b) fun _ _ => trivial
 
 /-- **C17, reads stay inside the file.**  For every file `f` (any length, any bytes) and every
 plan, no step reads a byte at an offset `≥ f.size`: the outcome `oob` is unreachable.  (Every
@@ -91,6 +95,7 @@ or completes, and when it completes the dimension equalities it recorded hold:
   exactly the `n` floats allocated; for `gauden_init_s3file` means and variances have equal
   dimensions and vector lengths;
 * LDA: `n = n_lda * rows * cols`, `cols = stream_len[0]`;
+* mixture weights: `n_feat`, `n_comp` equal to the codebook dimensions, `n = n_sen * n_feat * n_comp`;
 * sendump: one row per density, at least one column per senone, and all
   `n_feat * n_density` row pointers (each standing for `step` bytes) end inside the file.
 No plan indexes an allocated array at or beyond its element count (`idx` unreachable: the header
@@ -106,10 +111,13 @@ theorem C17_plan_decides (f : File) :
         o.n = o.nLda * o.rows * o.cols ∧ o.cols = sl ∧ 0 < o.n) ∧
     (∀ gf gd ms, (∃ site, sendumpPlan f gf gd ms = .reject site) ∨ ∃ o, sendumpPlan f gf gd ms = .ok o ∧
         o.rows = gd ∧ ms ≤ o.cols ∧ o.endPtr ≤ f.size ∧ ∃ step, o.endPtr = o.dataOff + gf * gd * step) ∧
+    (∀ gf gd, (∃ site, mixwPlan f gf gd = .reject site) ∨ ∃ o, mixwPlan f gf gd = .ok o ∧
+        0 < o.nSen ∧ o.nFeat = gf ∧ o.nComp = gd ∧ o.n = o.nSen * o.nFeat * o.nComp) ∧
     (∀ (p : Plan), p.Admissible → ∀ i n, p.run f ≠ .idx i n) :=
   ⟨Sat.decides (tmatPlan_sat f), Sat.decides (gaudenParamPlan_sat f),
    fun vars => Sat.decides (gaudenPlan_sat f vars), fun sl => Sat.decides (ldaPlan_sat f sl),
    fun gf gd ms => Sat.decides (sendumpPlan_sat f gf gd ms),
+   fun gf gd => Sat.decides (mixwPlan_sat f gf gd),
    fun p hp i n => Sat.not_idx (Plan.run_sat f p hp) i n⟩
 
 /-- **C17, the header table.**  `s3file_parse_header` on any file, from any reader position inside
@@ -152,5 +160,49 @@ example : (match runOps [.hdr, .get1d 4, .verify] (S.init (File.ofList (exArr.se
 /-- `s3file_get` past the end returns the elements that are there (`min(n, available/el_sz)`) -/
 example : (match get (S.init (File.ofList [1, 0, 2, 0, 3])) 2 5 with
     | .ok (s, c) => c == 2 && s.ptr == 4 | _ => false) = true := by decide +kernel
+
+/-! ## Error paths release the partial object exactly once -/
+
+namespace Ledger
+
+/-- **C17, rejecting leaves nothing behind.**  In the ownership-ledger model of the (repaired)
+clean-up code of `s3file_get_1d/_2d/_3d`, `tmat_init_s3file`, `gauden_param_read` +
+`gauden_init_s3file` and `feat_read_lda_s3file`: whatever stage the function fails at, every
+object it allocated is freed exactly once (no leak, no double free, no free of something not
+allocated) except what it has handed to its caller, and `feat->lda` is never left dangling; on
+success exactly the result objects are live.  (The ledgers are transcribed by hand from the C
+clean-up code; LeakSanitizer/ASan observe the real code at every reject site the fault
+enumeration reaches.  `ptm_mgau_init_s3file`, `bin_mdef_read_s3file` are not covered.) -/
+theorem C17_reject_leaves_clean :
+    (∀ s, s ≠ ArrStage.ok → clean (get1d false s) [] = true ∧ clean (get2d false s) [] = true ∧
+        clean (get3d false s) [] = true) ∧
+    clean (get1d false .ok) [0] = true ∧ clean (get2d false .ok) [0, 1] = true ∧
+    clean (get3d false .ok) [0, 1, 2] = true ∧
+    (∀ s, s ≠ TmatStage.ok → clean (tmat false s) [] = true) ∧ clean (tmat false .ok) [0, 1] = true ∧
+    (∀ s, s ≠ GauStage.ok → clean (gauden s) [] = true) ∧
+    clean (gauden .ok) [0, 10, 11, 12, 21, 22, 30] = true ∧
+    (∀ old s, s ≠ LdaStage.array .ok → (lda false old s).2 = false ∧
+      clean (lda false old s).1 (match s with | .ok => [0, 1, 2] | .dims => [0, 1, 2] | .header => if old then [9] else [] | _ => []) = true) := by
+  refine ⟨?_, by decide, by decide, by decide, ?_, by decide, ?_, by decide, ?_⟩
+  · intro s hs; cases s <;> first | exact absurd rfl hs | decide
+  · intro s hs; cases s <;> first | exact absurd rfl hs | decide
+  · intro s hs
+    cases s with
+    | means p => cases p <;> decide
+    | vars p => cases p <;> decide
+    | mismatch => decide
+    | ok => exact absurd rfl hs
+  · intro old s hs
+    cases old <;> cases s with
+    | array a => cases a <;> first | exact absurd rfl hs | decide
+    | _ => decide
+
+/-- non-vacuity: the ledger check does see the defects of the pinned clean-up code — the double
+free of `tp` after a checksum failure, the leak of `*buf` on a short read (D19b) and the dangling
+`feat->lda` -/
+example : clean (tmat true .chksum) [] = false ∧ clean (get1d true .data) [] = false ∧
+    (lda true true (.array .dims)).2 = true := by decide
+
+end Ledger
 
 end SSVerif.S3file
